@@ -5,6 +5,7 @@
 -/
 import MellonProofs.C04
 import MellonProofs.C16
+import MellonProofs.ShrinkLemmas
 
 open Matrix Finset
 
@@ -51,6 +52,45 @@ theorem full_insample_jitter {cov : Cov ℝ} {x : Mat ℝ n d} {y : Mat ℝ n c}
     (i col : Nat) (hi : i < n) (hc : col < c) :
     s.mean1 (x.row i) col - y.el i col = -(jitter * s.weights.el i col) :=
   C16.interp_y_is_mean h i col hi hc
+
+/-- **The jitter-proportional bound for full models.**  If the kernel matrix on the cells dominates `λ·I` (`λ ≥ 0`; `λ = 0` for
+    any positive semi-definite kernel, `PSD.gram_psd`), the in-sample errors of every value column satisfy
+    `Σᵢ (predictor(xᵢ) − fittedᵢ)² ≤ (jitter/(λ + jitter))² · Σᵢ (fittedᵢ − mu)²`: at most the size of the fitted values
+    themselves, and proportional to the jitter once the kernel matrix is well conditioned. -/
+theorem full_insample_bound {cov : Cov ℝ} {x : Mat ℝ n d} {y : Mat ℝ n c} {mu : ℝ} {sigma : Sigma ℝ n}
+    {jitter lam : ℝ} {ycf : Option (AnyMat ℝ)} {withUnc : Bool} {s : CondState ℝ n d c}
+    (h : fullCondInit cov x y mu Option.none sigma jitter ycf true withUnc = .ok s)
+    (hK : (toM (gram cov x x) - lam • (1 : Matrix (Fin n) (Fin n) ℝ)).PosSemidef) (hlam : 0 ≤ lam) (hj : 0 < jitter)
+    (col : Nat) (hc : col < c) :
+    (lam + jitter) ^ 2 * ∑ i ∈ range n, (s.mean1 (x.row i) col - y.el i col) ^ 2
+      ≤ jitter ^ 2 * ∑ i ∈ range n, (y.el i col - mu) ^ 2 := by
+  obtain ⟨K', hK', hW, _, _, _⟩ := C01.full_weights_solve h
+  obtain ⟨K'', hK'', hN⟩ := C01.noise_mean cov x sigma jitter ycf
+  have e : K' = K'' := Except.ok.inj (hK'.symm.trans hK'')
+  subst e
+  let w : Fin n → ℝ := fun j => s.weights.el j col
+  let r : Fin n → ℝ := fun i => (residual y mu).el i col
+  have hw : (toM (gram cov x x) + jitter • (1 : Matrix (Fin n) (Fin n) ℝ)) *ᵥ w = r := by
+    rw [← hN]
+    funext i
+    have := congrFun (congrFun hW i) ⟨col, hc⟩
+    simpa [Matrix.mul_apply, Matrix.mulVec, dotProduct, r, w] using this
+  have key := Shrink.ridge_error_bound (toM (gram cov x x)) hK hlam hj w r hw
+  have hL : ∑ i ∈ range n, (s.mean1 (x.row i) col - y.el i col) ^ 2 = jitter ^ 2 * (w ⬝ᵥ w) := by
+    rw [← sum_fin_eq_range (fun i => (s.mean1 (x.row i) col - y.el i col) ^ 2)]
+    simp only [dotProduct, Finset.mul_sum]
+    apply Finset.sum_congr rfl
+    intro i _
+    rw [full_insample_jitter h i col i.isLt hc]
+    simp only [w]; ring
+  have hR : ∑ i ∈ range n, (y.el i col - mu) ^ 2 = r ⬝ᵥ r := by
+    rw [← sum_fin_eq_range (fun i => (y.el i col - mu) ^ 2)]
+    simp only [dotProduct]
+    apply Finset.sum_congr rfl
+    intro i _
+    simp only [r, residual, el_ofFn, i.isLt, hc, and_self, if_true]; ring
+  rw [hL, hR]
+  nlinarith [key, sq_nonneg jitter]
 
 /-- **DTC models** (`sparse_nystroem`): if the fitted values lie in the range of `K_xu`
     (`y − mu = K_xu c`, true for `L = Q V √S` with `Q` from the QR of `K_xu`), the weights differ from
